@@ -5,12 +5,16 @@
    barriers for queued items, acquisition order for the fast paths), 4. no stuck state; plus word-level guards of the
    generated bodies for all 2^64 words (first section, names ending in _partial, kept from the earlier stage).
    How the model is tied to the library, and how far: C04_model_sites_match (the atomic sites of the modelled functions,
-   prefixes for 5 of 13) and the trace check of lib/props/c04.py.  C04_trace_judges_sound below is only the
-   no-false-alarm direction for two of its judges (every reachable model state passes word_ok / owner_ok: they are
-   necessary conditions; word_ok bounds the width field from below only); there is no theorem about the transition judge
-   tr_ok (it compares a recorded write with the generated body of its source site for some admissible value of the
-   unrecorded locals; it does not place the write at a program point of the model), and no ghost state is reconstructed
-   from recorded runs.  Not in the model: suspension, non-root targets, dispatch_async_and_wait, DISPATCH_BLOCK_BARRIER,
+   prefixes for 5 of 13) and the trace check of lib/props/c04.py.  C04_trace_judges_sound and C04_accounting_judge_sound
+   below are the no-false-alarm direction of its state judges (every reachable model state passes word_ok / owner_ok, and
+   passes acct_ok with its own ghost state): word_ok / owner_ok are necessary conditions on the word alone; acct_ok is the
+   equation of C04_width_accounting (upper and lower bound on the width field, IN_BARRIER exactly with a barrier owner)
+   and the check evaluates it with a ghost state RECONSTRUCTED from the recorded run by lib/props/c04.py (from which site
+   wrote, who wrote, the owner / PENDING bits and the lock owner's pops -- never from the width field or IN_BARRIER); that
+   reconstruction is Python code following the ghost updates of Model/CLane.v and is itself unproved.  There is no
+   theorem about the transition judge tr_ok (it compares a recorded write with the generated body of its source site for
+   some admissible value of the unrecorded locals; it does not place the write at a program point of the model).
+   Not in the model: suspension, non-root targets, dispatch_async_and_wait, DISPATCH_BLOCK_BARRIER,
    dispatch_apply's reservations, the drainer's wait for an enqueuer's link. *)
 From Coq Require Import ZArith Bool List.
 From Verif Require Import Word Gen_consts Gen_dqstate Suspend_proofs Lane_iface.
@@ -140,6 +144,14 @@ Theorem C04_trace_judges_sound : forall W s, 2 <= W <= 4094 -> reach W s ->
   word_ok W (st s) = true /\ (forall t, lockh s = Some t -> bmode s = true -> owner_ok (st s) t = true).
 Proof. exact trace_judges_sound. Qed.
 Print Assumptions C04_trace_judges_sound.
+
+(* (c) the accounting judge: a reachable state passes acct_ok with its own ghost state (held = U + dw, bm = bmode); the
+   trace check evaluates acct_ok on every word of the recorded value chain with the ghost state it reconstructs from the
+   run *)
+Theorem C04_accounting_judge_sound : forall W s, 2 <= W <= 4094 -> reach W s ->
+  acct_ok W (st s) (U s + dw s) (bmode s) = true.
+Proof. exact acct_ok_sound. Qed.
+Print Assumptions C04_accounting_judge_sound.
 
 (* ---------------------------------------------------------------------------------------------------------------
    3. order.  Every item carries an id (one counter for pushed and fast-path items, so ids of pushed items increase in
